@@ -181,7 +181,53 @@ struct ReqInfo {
     panicked: bool,
 }
 
+/// "Unlimited" spelled as a huge number: the bulkhead must be constructible and admit everybody.
+fn extreme_capacity(which: &str, sseed: u64) -> Report {
+    let mut rng = Prng::new(sseed);
+    let n = *rng.pick(&[usize::MAX, usize::MAX >> 3, (usize::MAX >> 3) + 1, usize::MAX / 2]);
+    let reject = rng.chance(0.5);
+    let mut rep = Report::default();
+    let r = std::panic::catch_unwind(|| {
+        run_sim(sseed, |sim| {
+            let w = sim.w.clone();
+            let b = BulkheadLayer::builder().max_concurrent_calls(n);
+            let layer = if reject { b.reject_when_full().build() } else { b.build() };
+            let svc = layer.layer(w.probe(1));
+            for i in 0..4u64 {
+                let req = Req::new(i + 1, 0, vec![Step { lat: Lat::ms(5), out: Out::Ok }]);
+                let a = sim.actor(req.id, caller_linger(w.clone(), svc.clone(), req, false, Linger::No, map_err));
+                sim.start_at(0, a);
+            }
+            sim.horizon = 1_000_000;
+        })
+    });
+    match r {
+        Err(_) => rep.violate(
+            format!("{which}:panic-at-extreme-config"),
+            format!("bulkhead with max_concurrent_calls={n}{}: {}", if reject { " (reject_when_full)" } else { "" }, crate::sim::take_last_panic().unwrap_or_default()),
+        ),
+        Ok((w, _, ())) => {
+            let log = w.take_log();
+            let entered_at_0 = log.iter().filter(|r| r.t == 0 && matches!(r.ev, Ev::InnerEnter { .. })).count();
+            let ok = log.iter().filter(|r| matches!(&r.ev, Ev::Resolve { out: Outcome::Ok { .. }, .. })).count();
+            if entered_at_0 != 4 || ok != 4 {
+                rep.violate(format!("{which}:extreme-capacity-not-admitted"), format!("bulkhead with max_concurrent_calls={n}: {entered_at_0} of 4 simultaneous callers entered at once, {ok} succeeded"));
+            }
+            rep.log = log;
+        }
+    }
+    rep.nontrivial = true;
+    rep.sig = crate::prng::mix(n as u64, reject as u64);
+    rep.count("extreme_capacity_scenarios", 1);
+    rep.bucket("extreme capacity".to_string());
+    rep.case = json!({"max_concurrent_calls": n.to_string(), "reject_when_full": reject});
+    rep
+}
+
 pub fn scenario(which: &str, sseed: u64, _tier: Tier) -> Report {
+    if sseed % 61 == 0 {
+        return extreme_capacity(which, sseed);
+    }
     let mut rng = Prng::new(sseed);
     let cfg = gen(&mut rng);
     let (w, stats) = run(&cfg, rng.next());
